@@ -651,6 +651,8 @@ class Verifier(Interp):
     def call_by_contract(self, fi, con, bound, node):
         callee = con.short
         env = self.typed_bind(con, bound)
+        if con.record:
+            self.st.calls.append((con.key, dict(env)))
         name = "%s#call[%s]" % (self.cur_func, callee)
         # preconditions
         def pre():
@@ -778,6 +780,13 @@ class Verifier(Interp):
         size = z3.Int(self.fresh_name("hv." + hint + ".size"))
         self.st.pc.append(size >= 0)
         return MapV(old.kt, old.vt, dom, val, size)
+
+    def ite(self, c, a, b):
+        if isinstance(a, Ref) and isinstance(b, Ref) and a.ty.kind == "list" and b.ty.kind == "list" and a.rid != b.rid:
+            sa, sb = lib.seq_of(self, a), lib.seq_of(self, b)
+            if sa is not None and sb is not None:
+                return lib.alloc(self, Ty("list", sa.ty.args[0]), P(sa.ty, z3.If(c, sa.term, sb.term)), "cell.ite")
+        return super().ite(c, a, b)
 
     def coerce(self, v, ty):
         if isinstance(v, Special) and v.tag == "dict_lit" and ty.kind in ("map", "bimap"):
@@ -1225,6 +1234,10 @@ class Verifier(Interp):
             if cond is not None:
                 c = self.spec_eval(lambda: self.truth(self.ev(self.parse(cond))), env)
                 self.emit("%s#raises.%s.only_when" % (short, val), c, meta={"kind": "raises"})
+            def rpost():
+                for i, e in enumerate(con.raises_ensures):
+                    self.prove("%s#raises.post.%d" % (short, i), self.formula(e), meta={"kind": "raises"})
+            self.spec_eval(rpost, env)
             return
         # normal return
         for exc, cond in con.raises.items():
